@@ -48,6 +48,14 @@ class SimAbort(BaseException):
     """The scheduler tears the run down (deadlock, step cap)."""
 
 
+class SimLivelock(BaseException):
+    """One API call has issued more file-system events than any terminating call of these workloads can
+    (single-task engines have no scheduler whose step cap would notice): the call does not return."""
+
+
+CALL_EVENT_CAP = 400000
+
+
 class Event(object):
     __slots__ = ("seq", "task", "kind", "op", "cls", "rel", "path", "extra")
 
@@ -169,6 +177,7 @@ class Run(object):
         # os.copy_file_range) may legally accept fewer bytes than offered and say so in its return value
         self.short_writes = False
         self.short_counter = 0
+        self.call_events = 0  # seam events since the current API call began (reset by World.exec_op)
 
     def short(self, n):
         """How many of n offered bytes this raw write accepts (seeded, deterministic)."""
@@ -201,6 +210,10 @@ class Run(object):
             raise SimCrash()
         rel = self.rel(path)
         cls = classify(rel) if rel is not None else "outside"
+        self.call_events += 1
+        if self.call_events > CALL_EVENT_CAP and self.sched is None:
+            self.call_events = 0
+            raise SimLivelock()
         self.seq += 1
         ev = Event(self.seq, task, kind, op, cls, rel, path, extra)
         if self.recording:
